@@ -206,6 +206,36 @@ def r17abc(ctx):
         for k, e in zip("xyzt", gc[0].args[0].elts):
             d = def_of(g, e.id) if isinstance(e, ast.Name) and droles.get(e.id) not in ("x", "y") else e
             area[k] = _canon_names(d, droles) if d is not None else "?"
+    else:
+        # the same area read cell by cell: get_cell((xx, yy), keep_repeated=False) for xx in range(x, z + 1) for yy in range(y, t + 1)
+        single = [n for n in walk_no_nested(g.node) if isinstance(n, ast.Call) and call_name(n) == "get_cell" and is_self_attr(n.func) and n.args
+                  and isinstance(n.args[0], ast.Tuple) and len(n.args[0].elts) == 2]
+        for n in single[:1]:
+            kr = get_arg(n, 2, "keep_repeated")
+            plain = kr is not None and repo.fold(kr, g.module) is False
+            ctx.instance("R17c", f"{g.file}:{g.ident}", "cells of the area are read one by one without their repeat count", ok=plain, nontrivial=True, line=n.lineno)
+            if not plain:
+                ctx.report("R17c", g, n, norm(n, 50),
+                           "del_span reads the area cell by cell and keeps the repeat count of each copy (no keep_repeated=False): a covered cell stored as a run is written back "
+                           "over several positions, the restored area is wider than the span and the cells to its right are overwritten")
+                return
+            ranges = {}
+            cur = n
+            while cur is not None and cur is not g.node:
+                par = getattr(cur, "_parent", None)
+                gens = [(par.target, par.iter)] if isinstance(par, ast.For) and cur is not par.iter else \
+                    [(gn.target, gn.iter) for gn in par.generators] if isinstance(par, (ast.ListComp, ast.GeneratorExp)) else []
+                for tg, it in gens:
+                    if isinstance(tg, ast.Name) and isinstance(it, ast.Call) and call_name(it) == "range" and len(it.args) == 2:
+                        ranges.setdefault(tg.id, it.args)
+                cur = par
+            for (lo_k, hi_k), e in zip((("x", "z"), ("y", "t")), n.args[0].elts):
+                if isinstance(e, ast.Name) and e.id in ranges:
+                    lo, hi = ranges[e.id]
+                    hi = hi.left if isinstance(hi, ast.BinOp) and isinstance(hi.op, ast.Add) and isinstance(hi.right, ast.Constant) and hi.right.value == 1 else None
+                    for k, v in ((lo_k, lo), (hi_k, hi)):
+                        d = def_of(g, v.id) if isinstance(v, ast.Name) and droles.get(v.id) not in ("x", "y") else v
+                        area[k] = _canon_names(d, droles) if d is not None else "?"
     ok = area == {"x": "x", "y": "y", "z": "x+nb_cols-1", "t": "y+nb_rows-1"}
     ctx.instance("R17c", f"{g.file}:{g.ident}", f"area recomputed as {area}", ok=ok, nontrivial=True)
     if not ok:
@@ -589,6 +619,146 @@ def r17h(ctx):
         raise AnalysisError("R17h: no loop over stored rows/cells/columns found")
 
 
+_FIXTURE_K = '''
+class Row:
+    def set_cells(self, cells):
+        self.clear()
+        self.extend_cells(cells)
+    def refill(self, values):
+        me = self
+        me.clear()
+    def set_values(self, values):
+        for old in self._get_cells():
+            self.delete(old)
+        self._indexes.clear()
+    def wipe_first(self):
+        row = self._get_rows()[0]
+        row.clear()
+    def clear(self):
+        self._element.clear()
+'''
+
+
+def _clear_self_sites(fn: ast.FunctionDef):
+    """calls of the element-level clear() on the object itself (or a plain alias of it), or on a row/column it stores"""
+    alias = {"self"}
+    stored = set()
+    for n in walk_no_nested(fn):
+        if isinstance(n, ast.Assign) and len(n.targets) == 1 and isinstance(n.targets[0], ast.Name):
+            if isinstance(n.value, ast.Name) and n.value.id in alias:
+                alias.add(n.targets[0].id)
+            if any(isinstance(x, ast.Call) and call_name(x) in ("_get_rows", "_get_columns", "get_row", "get_column", "_get_row2_base") for x in ast.walk(n.value)):
+                stored.add(n.targets[0].id)
+        if isinstance(n, ast.For) and isinstance(n.target, ast.Name) and any(isinstance(x, ast.Call) and call_name(x) in ("_get_rows", "_get_columns") for x in ast.walk(n.iter)):
+            stored.add(n.target.id)
+    return [n for n in walk_no_nested(fn) if isinstance(n, ast.Call) and isinstance(n.func, ast.Attribute) and n.func.attr == "clear" and not n.args
+            and isinstance(n.func.value, ast.Name) and n.func.value.id in alias | stored]
+
+
+def r17k(ctx):
+    """Replacing the cells of a row leaves the row itself alone.
+
+    "Creating a cell span and deleting it restores the table": set_span and del_span push the edited cells back with
+    Table.set_cells(…, clone=False), which hands each row its new cells through Row.set_cells.  Element.clear() is lxml's clear: it removes the
+    children *and every attribute* — the row's style, its visibility, its repeat count.  A row (or table, or column) method that empties the
+    container with it before refilling therefore changes more than the cells it was asked to replace, and nothing puts the attributes back: a
+    span over whole rows comes back from del_span with unstyled rows.  Rule (expected count 0, fixture evaluated on every run): no method of
+    Table, Row, RowGroup or Column other than `clear` itself calls clear() on the object or on a row/column it stores.
+    """
+    repo = ctx.repo
+    ctx.rule("R17k", "no method of a table container empties the container with the element-level clear(), which also removes its attributes", floor=120)
+    tree = ast.parse(_FIXTURE_K)
+    got = sorted(fn.name for fn in ast.walk(tree) if isinstance(fn, ast.FunctionDef) and fn.name != "clear" and _clear_self_sites(fn))
+    if got != ["refill", "set_cells", "wipe_first"]:
+        raise AnalysisError(f"R17k fixture: detector broken: {got}")
+    n = 0
+    for cn in ("Table", "Row", "RowGroup", "Column"):
+        c = repo.cls(cn)
+        for name, fs in sorted(c.methods.items()):
+            for f in fs:
+                if f.cls is not c or name == "clear" or f.kind == "nested":
+                    continue
+                n += 1
+                bad = _clear_self_sites(f.node)
+                ctx.instance("R17k", f"{f.file}:{f.ident}", "does not clear() the container", ok=not bad, nontrivial=bool(bad) or name.startswith(("set_", "insert_", "append_", "extend_", "del", "_")), line=f.node.lineno)
+                for b in bad[:1]:
+                    ctx.report("R17k", f, b, norm(b, 40),
+                               f"{f.ident} empties the {cn.lower()} with `{norm(b, 30)}`: the element-level clear() removes the attributes too (style, repeat count, visibility), "
+                               f"so replacing the cells changes the {cn.lower()} itself — set_span followed by del_span gives back rows without their style")
+
+
+# texts Python writes for a number (str of int, Decimal and float): what to_csv() can put in a numeric field
+_R17L_NUMERALS = ("0", "-3", "42", "1.5", "-0.25", "1E-7", "1.2E-7", "-1.2E-7", "1E+30", "1e-07", "1.5e+30", "123456789012345678901234567890")
+_STR_PREDICATES = {"isdigit", "isdecimal", "isnumeric", "isalnum", "isalpha", "startswith", "endswith", "isascii"}
+
+
+def r17l(ctx):
+    """The CSV importer tries to read as a number every text the exporter writes for one.
+
+    "Exporting to CSV and importing back preserves the values": to_csv() hands Python numbers to the csv writer, which writes `str(value)` — for a
+    Decimal or a float that can be scientific notation (`1.2E-7`, `1e-07`) as well as plain digits.  The importer guesses the type of each
+    field by trying int() and float() on the text.  A filter in front of those attempts (a pattern, a digits-only predicate) decides which
+    texts are tried at all; if it rejects one of the forms the exporter writes, that number comes back as a string.  Rule: in
+    `_get_python_value`, every condition the int()/float()/Decimal() attempts depend on is either a type test, or a constant pattern that
+    accepts all the reference numerals (checked by matching the pattern, a constant of the source, against them); a str predicate on the text
+    is not accepted, and the attempts exist.
+    """
+    import re as _re
+    repo = ctx.repo
+    ctx.rule("R17l", "the CSV importer attempts the numeric constructors on every numeral the exporter can write (no narrower filter in front)", floor=2)
+    f = repo.func("table:_get_python_value")
+    data = f.node.args.args[0].arg if f.node.args.args else None
+    tries = [n for n in walk_no_nested(f.node) if isinstance(n, ast.Call) and isinstance(n.func, ast.Name) and n.func.id in ("int", "float", "Decimal") and n.args]
+    if not any(n.func.id in ("float", "Decimal") for n in tries) or not any(n.func.id == "int" for n in tries):
+        ctx.instance("R17l", f"{f.file}:{f.ident}", "int() and float() are attempted", ok=False, nontrivial=True, line=f.node.lineno)
+        ctx.report("R17l", f, f.node, "numeric attempts missing", f"{f.ident} no longer tries both int() and float()/Decimal() on the field: numbers written by to_csv() come back as text")
+        return
+    mod = repo.modules[f.module] if isinstance(f.module, str) else f.module
+
+    def pattern_of(e):
+        """constant pattern of `X.match(…)` / `re.match(pat, …)`; (pattern, method) or None"""
+        if not (isinstance(e, ast.Call) and isinstance(e.func, ast.Attribute) and e.func.attr in ("match", "fullmatch", "search")):
+            return None
+        recv = e.func.value
+        if isinstance(recv, ast.Name) and recv.id == "re" and e.args:
+            pat = repo.fold(e.args[0], f.module)
+            return (pat, e.func.attr) if isinstance(pat, str) else None
+        if isinstance(recv, ast.Name):
+            for st in mod.tree.body:
+                if isinstance(st, ast.Assign) and any(isinstance(t, ast.Name) and t.id == recv.id for t in st.targets) and isinstance(st.value, ast.Call) \
+                        and call_name(st.value) == "compile" and st.value.args:
+                    pat = repo.fold(st.value.args[0], f.module)
+                    return (pat, e.func.attr) if isinstance(pat, str) else None
+        return None
+
+    for n in tries:
+        bad = None
+        for t, pol in structural_guards(n, stop=f.node):
+            if isinstance(t, ast.Call) and call_name(t) == "isinstance":
+                continue
+            hit = None
+            for x in ast.walk(t):
+                po = pattern_of(x)
+                if po is not None:
+                    pat, meth = po
+                    rx = _re.compile(pat)
+                    rejected = [s_ for s_ in _R17L_NUMERALS if bool(getattr(rx, meth)(s_)) != pol]
+                    if rejected:
+                        hit = f"the pattern {pat!r} {'rejects' if pol else 'diverts'} {', '.join(rejected[:3])}"
+                elif isinstance(x, ast.Call) and isinstance(x.func, ast.Attribute) and x.func.attr in _STR_PREDICATES:
+                    hit = f"`{norm(x, 30)}` is a character-class test, which scientific notation, signs or the decimal point fail"
+                elif isinstance(x, ast.Call) and isinstance(x.func, ast.Attribute) and x.func.attr in ("match", "fullmatch", "search"):
+                    hit = f"`{norm(x, 30)}` is a pattern that cannot be read from the source"
+            if hit:
+                bad = (t, hit)
+                break
+        ctx.instance("R17l", f"{f.file}:{f.ident}", f"{norm(n, 20)} is attempted for every reference numeral", ok=bad is None, nontrivial=True, line=n.lineno)
+        if bad:
+            ctx.report("R17l", f, bad[0], f"{n.func.id}: {norm(bad[0], 40)}",
+                       f"{f.ident} attempts `{norm(n, 20)}` only under `{norm(bad[0], 50)}`: {bad[1]} — a number that to_csv() writes in that form is imported as a string, so the CSV "
+                       f"round trip changes the value")
+
+
 def run(ctx):
     tom = run_tom(ctx.repo)
     r17abc(ctx)
@@ -599,6 +769,8 @@ def run(ctx):
     r17h(ctx)
     r17i(ctx)
     r17j(ctx)
+    r17k(ctx)
+    r17l(ctx)
     # span and area operations write back through Table.set_cells / set_row: a row copy that still carries a repeat count is written N times
     # (the one-row-only obligation R01a of C01 is a necessary condition here too)
     from .c01 import r01a
@@ -614,6 +786,14 @@ from ..selftest import Seed, unparse_seed  # noqa: E402
 _T = "src/odfdo/table.py"
 _R = "src/odfdo/row.py"
 SEEDS = [
+    Seed("the CSV importer tries numbers only on plain decimal text", "fault", _T,
+         "    # An int ?\n    try:\n        return int(data)\n    except ValueError:\n        pass\n    # A float ?\n    try:\n        return float(data)\n    except ValueError:\n        pass\n",
+         "    if re.match(r\"^[+-]?\\d+(\\.\\d*)?$\", data):\n        try:\n            return int(data)\n        except ValueError:\n            pass\n        try:\n            return float(data)\n        except ValueError:\n            pass\n", "R17l"),
+    Seed("the CSV importer skips the numeric attempts for text that cannot be a number", "neutral", _T,
+         "    # An int ?\n    try:\n        return int(data)\n    except ValueError:\n        pass\n    # A float ?\n    try:\n        return float(data)\n    except ValueError:\n        pass\n",
+         "    if re.search(r\"\\d\", data):\n        try:\n            return int(data)\n        except ValueError:\n            pass\n        try:\n            return float(data)\n        except ValueError:\n            pass\n"),
+    Seed("Row.set_cells empties the row with clear() before refilling", "fault", _R,
+         "        if start == 0 and clone is False and (len(cells) >= self.width):\n            self._delete_cells()", "        if start == 0 and clone is False and (len(cells) >= self.width):\n            self.clear()", "R17k"),
     Seed("optimize_width measures non-blank rows only", "fault", _T, "        return max(row.minimized_width() for row in self._get_rows())",
          "        return max((row.minimized_width() for row in self._get_rows() if not row.is_empty()), default=1)", "R17i"),
     Seed("optimize_width tolerates a table without rows", "neutral", _T, "        return max(row.minimized_width() for row in self._get_rows())",
